@@ -105,7 +105,9 @@ ExecOp(op, E) ==
                            !.atoms = Append(@, Atom("send", op.ev, 0))]
             \* delayed: held by the delay queue (dq) until its timer fires (ScxmlStep!EnvFire);
             \* nothing reaches the external queue now, hence no atom
-            ELSE [E EXCEPT !.dq = Append(@, Ev(op.ev))]
+            ELSE [E EXCEPT !.dq = Append(@, [name |-> op.ev, sid |-> op.sid])]
+      [] op.op = "cancel" ->    \* <cancel sendid>: every pending delayed event sent with that id is dropped
+            [E EXCEPT !.dq = SelectSeq(@, LAMBDA d : d.sid # op.sid)]
       [] op.op = "if" -> ExecArms(op.arms, 1, E)
       [] op.op = "fault" ->
             IF op.kind \in {"sendtarget"} THEN RaiseErr(E, ErrComm)
